@@ -8,7 +8,8 @@ A spec is a JSON list of items
 
   {"name": "newman_step",                      Lean name of the definition
    "file": "src/pyunicorn/core/network.py",
-   "func": "Network.newman_betweenness",       Class.method or function
+   "func": "Network.newman_betweenness",       Class.method or function; `name#k` = k-th
+                                               definition of that name (property setter)
    "target": "step",                           assigned name | "return" | "subscript:<arr>"
    "occurrence": 0,                            which matching statement (default 0)
    "params": [["N","Int"],["max_parts","Int"]],  free names of the expression, with Lean types
@@ -57,8 +58,15 @@ def find_func(tree, qual):
     node = None
     for p in parts:
         node = None
+        # `name#k` selects the k-th definition of that name (e.g. the setter
+        # of a property, which follows the getter of the same name)
+        p, _, skip = p.partition("#")
+        skip = int(skip or 0)
         for n in body:
             if isinstance(n, (ast.FunctionDef, ast.ClassDef, ast.AsyncFunctionDef)) and n.name == p:
+                if skip:
+                    skip -= 1
+                    continue
                 node = n
                 break
         if node is None:
@@ -267,7 +275,8 @@ def translate_item(item, cache):
         if expr is None:
             raise Untranslatable("slice part absent")
     if isinstance(expr, ast.AugAssign):
-        raise Untranslatable("augmented assignment")
+        # `x op= e` is translated as the expression `x op e`
+        expr = ast.BinOp(left=expr.target, op=expr.op, right=expr.value)
     text, ty = Tr(item).tr(expr)
     ret = item["ret"]
     if ret == "Int" and ty != "Int":
@@ -276,7 +285,8 @@ def translate_item(item, cache):
         text = f"(({text} : Int) : Rat)"
     if ret == "Bool":
         text = f"decide {text}"
-    seg = ast.get_source_segment(src, expr) or ""
+    seg = (ast.get_source_segment(src, expr) if hasattr(expr, "lineno") else None) \
+        or src.split("\n")[lineno - 1].strip()
     params = " ".join(f"({p} : {t})" for p, t in item["params"])
     return (f"/-- `{item['file']}:{lineno}` in `{item['func']}`: `{' '.join(seg.split())}` -/\n"
             f"def {item['name']} {params} : {ret} :=\n  {text}\n")
